@@ -6,10 +6,10 @@ CONSTANTS
   HCap = 64
   Parts = 1
   WsMode = FALSE
-  MaxPub = 4
-  MaxRead = 3
+  MaxPub = 6
+  MaxRead = 4
   MaxStall = 2
-  MaxSweep = 2
+  MaxSweep = 3
   MaxLeave = 1
 INVARIANTS Quiescent QueueBound WholeUnits
 VIEW GView
